@@ -4,6 +4,9 @@ HOOK_COMMITS = ["eeb5880", "54c0dd5"]
 _NOTE = ("Trusted: Lean kernel; Spec/* transcription of the FIRST documents; F64.lean as a description of amd64 Go float64 "
          "(validated bit-exactly on the whole domain each run, not verified); harness/driver/check.py. The model is hand-written: "
          "its tie to /repo is the correspondence run of this check (exhaustive where the domain is finite).")
+_NOTE_F = (_NOTE + " Second tie for the score properties: go/formulas translates the source text of the score and severity functions "
+           "into Lean on every run and Props/Src.lean proves them equal to the model for every object (per-metric Value/IsChanged/IsEmpty/"
+           "GetError are primitives of that translation); evidence field formula_translation says whether that held in the run.")
 
 TEXT = {
     "C01": {
@@ -11,18 +14,18 @@ TEXT = {
                  "returns the double nearest to the FIRST base equations evaluated in exact rationals; zero-iff and range theorems; kernel-checked "
                  "by staged evaluation (54 stage checks x 48 vectors). The model is tied to /repo by comparing Score() bits on the whole "
                  "domain at all three decoders on every run, and the code's scores are also judged directly against the Lean Spec oracle.",
-        "ref": "5 (C01), 3", "note": _NOTE,
-        "technique": "Lean 4 kernel proof (decide +kernel on staged soft-float/Rat checks) + exhaustive differential correspondence"},
+        "ref": "5 (C01), 3", "note": _NOTE_F,
+        "technique": "Lean 4 kernel proof (decide +kernel on staged soft-float/Rat checks) + exhaustive differential correspondence + source-to-Lean translation of the score functions (go/formulas) proved equal to the model"},
     "C02": {
         "level": "Theorem temporal3_eq_spec over all base x temporal vectors via the 101x100-point temporal grid lemma on the rounded base "
                  "score; correspondence enumerates all 518,400 vectors through the temporal decoder.",
-        "ref": "5 (C02)", "note": _NOTE,
-        "technique": "Lean 4 kernel proof (grid lemma) + exhaustive differential correspondence"},
+        "ref": "5 (C02)", "note": _NOTE_F,
+        "technique": "Lean 4 kernel proof (grid lemma) + exhaustive differential correspondence + source-to-Lean translation of the score functions (go/formulas) proved equal to the model"},
     "C03": {
         "level": "Theorem env3_eq_spec over the full ~1.1e12 record domain by symbolic reduction to the effective key and staged kernel "
                  "evaluation on the effective domain; correspondence enumerates the effective-metric domain and all fall-back pairs.",
-        "ref": "5 (C03)", "note": _NOTE,
-        "technique": "Lean 4 kernel proof (reduction lemmas + staged decide +kernel) + exhaustive-effective-domain correspondence"},
+        "ref": "5 (C03)", "note": _NOTE_F,
+        "technique": "Lean 4 kernel proof (reduction lemmas + staged decide +kernel) + exhaustive-effective-domain correspondence + source-to-Lean translation of the score functions (go/formulas) proved equal to the model"},
 }
 TEXT["C04"] = {
     "level": "The unchanged tree violates the base clause on 22 of 729 vectors (known finding F1: sub-scores rounded to two decimals). "
@@ -30,25 +33,25 @@ TEXT["C04"] = {
              "base2_known_violate (each listed vector is a real violation), temporal2_eq / temporal2_grid (temporal clause in full, grid "
              "-2.0..10.0). Correspondence: all 73,629 vectors exhaustively; code judged against the Rat specification oracle; failures "
              "outside known_findings.json are violations.",
-    "ref": "5 (C04), 6, 9", "note": _NOTE,
-    "technique": "Lean 4 kernel proof (staged decide +kernel, partial theorem + witnesses) + exhaustive differential correspondence"}
+    "ref": "5 (C04), 6, 9", "note": _NOTE_F,
+    "technique": "Lean 4 kernel proof (staged decide +kernel, partial theorem + witnesses) + exhaustive differential correspondence + source-to-Lean translation of the score functions (go/formulas) proved equal to the model"}
 TEXT["C05"] = {
     "level": "Known finding F2 (1,194 of 46,656 adjusted-base tuples, same cause as F1). Proved: env2_partial (the full chain "
              "adjusted base -> temporal -> CDP/TD on every vector whose tuple is not listed), env2_known_violate, env2_grid, env2_absent. "
              "Correspondence: all 46,656 tuples exhaustively, every CDP x TD pair, random full vectors.",
-    "ref": "5 (C05), 6, 9", "note": _NOTE,
-    "technique": "Lean 4 kernel proof (staged decide +kernel, partial theorem + witnesses) + exhaustive tuple correspondence"}
+    "ref": "5 (C05), 6, 9", "note": _NOTE_F,
+    "technique": "Lean 4 kernel proof (staged decide +kernel, partial theorem + witnesses) + exhaustive tuple correspondence + source-to-Lean translation of the score functions (go/formulas) proved equal to the model"}
 TEXT["C06"] = {
     "level": "Theorems: every level/version score of the model is tenth k with k in 0..100 (v2 environmental: exception exactly as stated) and "
              "the severity is band k (101-point kernel evaluation of severity()); tenth k is the nearest double to k/10; printing needs "
              "at most one decimal. Correspondence on the exhaustive base domains and seeded environmental vectors.",
-    "ref": "5 (C06)", "note": _NOTE,
-    "technique": "Lean 4 kernel proof (corollaries of C01-C05 + decide +kernel on the grid) + differential correspondence"}
+    "ref": "5 (C06)", "note": _NOTE_F,
+    "technique": "Lean 4 kernel proof (corollaries of C01-C05 + decide +kernel on the grid) + differential correspondence + source-to-Lean translation of the score functions (go/formulas) proved equal to the model"}
 TEXT["C13"] = {
     "level": "Theorems: temporal all-X = base (v2, v3), temporal <= base (conjuncts of the temporal grid lemmas), v3 environmental all-X = "
              "temporal except (3.1, scope changed) with a witness that the exception is real, v2 TD:N => 0 on every vector.",
-    "ref": "5 (C13)", "note": _NOTE,
-    "technique": "Lean 4 kernel proof (grid lemma conjuncts, symbolic reduction) + exhaustive differential correspondence"}
+    "ref": "5 (C13)", "note": _NOTE_F,
+    "technique": "Lean 4 kernel proof (grid lemma conjuncts, symbolic reduction) + exhaustive differential correspondence + source-to-Lean translation of the score functions (go/formulas) proved equal to the model"}
 TEXT["C20"] = {
     "level": "Theorems on the model's tables: Get/String inverse on every code of every metric (v3_tables_ok, v2_tables_ok), every other string "
              "parses to 0 and every other integer prints as empty (get_other / str_other, for ALL strings and integers), validity separates, "
